@@ -78,7 +78,8 @@ MENU = [
     ("attrs_odd_arguments", b"import attr\n@attr.s(auto_attribs={[]: 1})\nclass A:\n    x: int = 1\n@attr.s(auto_attribs=unknown_name, kw_only=[1])\nclass B:\n    y = attr.ib(type=[], default=attr.Factory)\nz = attr.ib()\n"),
     ("implementer_odd_arguments", b"from zope.interface import implementer, Interface, implements\ndef some_function(): pass\nCONST = 1\n@implementer(some_function, CONST, 3, Interface)\nclass C:\n    def m(self): pass\n    x = 1\n"),
     ("setter_on_non_property", b"class C:\n    class x:\n        pass\n    @x.setter\n    def x(self, v): pass\n    y = 1\n    @y.getter\n    def y(self): pass\n"),
-    ("doc_assignment", b"class C:\n    pass\nC.__doc__ = 'surrogate \\ud800 here'\ndef f(): pass\nf.__doc__ = 3\nC.__doc__ += 'x'\nunknown.__doc__ = 'y'\n"),
+    ("doc_assignment", b"class C:\n    pass\nC.__doc__ = 'surrogate \\ud800 here'\ndef f(): pass\nf.__doc__ = 3\nC.__doc__ += 'x'\nunknown.__doc__ = 'y'\nclass D:\n    pass\nD.__doc__ = {[]: 1}\nD.__doc__ = -'s'\n"),
+    ("subclasses_all_superseded", b"class Base:\n    def m(self): pass\nclass Sub(Base):\n    def m(self): pass\nclass Sub:\n    pass\nclass Base2:\n    pass\nclass _H(Base2):\n    pass\nclass _H:\n    pass\n"),
     ("huge_numbers", b"X = 0x" + b"f" * 5000 + b"\nY = -0o" + b"7" * 6000 + b"\nZ = 1e999\nW = 1" + b"0" * 400 + b"j\ndef f(a=0x" + b"f" * 5000 + b"): pass\n"),
     ("docformat_names_a_non_parser_module", b"'''doc'''\n__docformat__ = '_types'\ndef f():\n    '''doc'''\n"),
     ("docformat_dunder_init", b"'''doc'''\n__docformat__ = '__init__'\nclass K:\n    '''doc B{x}'''\n"),
@@ -189,8 +190,8 @@ NMOD = tier(2, 3)
     parts=lambda: list(range(NM)), timeout=(300, 3000), cls="E", tracing="concrete-after-choice", twin="first", unblock=UNBLOCK,
     code=["pydoctor.model.System.addPackage/analyzeModule/process/processModule", "pydoctor.astbuilder.ASTBuilder.parseFile/processModuleAST", "pydoctor.astbuilder.parseAll/parseDocformat/ModuleVistor.*",
           "pydoctor.model.defaultPostProcess", "pydoctor.templatewriter.writer.TemplateWriter", "pydoctor.sphinx.SphinxInventoryWriter", "pydoctor.driver.main (exit status)"],
-    bounds={"quick": "a root module 'other' + packages of 2 modules drawn from a menu of 46 module files (5 that do not parse - syntax error, NUL byte, inconsistent indentation, undecodable bytes, unknown coding -, un-evaluable __all__ / __docformat__, a __docformat__ naming a module that is not a parser, extension decorators (attr.s, implementer, property setters) with arguments they do not expect, __doc__ assignments, numbers too long to print, modules importing their siblings in either direction, every special-cased statement form, duplicates, bad fields, empty file), docformat chosen by the pair (2 116 packages)",
-            "thorough": "3 modules (97 336 packages) x docformat chosen by the triple"},
+    bounds={"quick": "a root module 'other' + packages of 2 modules drawn from a menu of 47 module files (5 that do not parse - syntax error, NUL byte, inconsistent indentation, undecodable bytes, unknown coding -, un-evaluable __all__ / __docformat__, a __docformat__ naming a module that is not a parser, extension decorators (attr.s, implementer, property setters) with arguments they do not expect, __doc__ assignments, numbers too long to print, modules importing their siblings in either direction, every special-cased statement form, duplicates, bad fields, empty file), docformat chosen by the pair (2 209 packages)",
+            "thorough": "3 modules (103 823 packages) x docformat chosen by the triple"},
     outside="everything not assembled from the menu; hangs; the command-line front end (options parsing, intersphinx download)",
 )
 def h_run_completes(i1: int, i2: int) -> bool:
